@@ -66,8 +66,9 @@ def plan(tier, seed):
               frac=float(pick(rng, [0.2, 0.5, 1.0])), mi=int(pick(rng, [300, 1000])))
     for a in APPS:
         for mi in ([0, 1, 7] if quick else MAXITERS):
-            if a == "EspiritCalib" and mi == 0:
-                continue     # its output (eigenvalue maps) is only defined after one update
+            # (EspiritCalib with max_iter=0: its output - eigenvalue maps - is only defined
+            # after one update and run() raises in _output on the pinned tree; the App's
+            # algorithm is then driven by the loop itself, which must perform no update)
             for r in range(1 if quick else 6):
                 P.add("app", app=a, mi=mi, aseed=int(rng.integers(1 << 30)))
     for r in range(40 if quick else 600):
@@ -83,6 +84,16 @@ def plan(tier, seed):
                                           "GradientMethod-acc"]),
               mi=int(pick(rng, [1, 2, 4, 7])), fail_at=int(rng.integers(0, 7)),
               cplx=bool(rng.random() < 0.5), aseed=int(rng.integers(1 << 30)))
+    # instances of realistic size (a long record, an image: more than 2**16 unknowns, sizes
+    # that are not a multiple of a power of two) in which only a small part of the solution
+    # still moves - the last samples, the first, a sparse set: with tol = 0 that is not a stop
+    for r in range(16 if quick else 120):
+        P.add("bigloop", alg=pick(rng, ["GradientMethod", "GradientMethod-acc", "ConjugateGradient",
+                                        "PrimalDualHybridGradient", "GradientMethod-l1"]),
+              size=int(pick(rng, [70000, 65537, 131073, 200001, 66000])),
+              where=pick(rng, ["tail", "tail", "head", "sparse", "middle"]),
+              cplx=bool(rng.random() < 0.4), mi=int(pick(rng, [6, 12])),
+              aseed=int(rng.integers(1 << 30)), timeout=600)
     if tier == "thorough" and repo_tests.available():
         # the repository's own test suite as one more workload under the always-on monitors
         P.add("repo-tests", timeout=1800.0, fresh=True)
@@ -338,6 +349,58 @@ def run_loop(case):
     return r
 
 
+def run_bigloop(case):
+    import sigpy as sp
+    rng = np.random.default_rng(case["aseed"])
+    kind, mi, N = case["alg"], case["mi"], case["size"]
+    dt = np.complex128 if case["cplx"] else np.float64
+    sig = "bigloop|%s|%s|%s" % (kind, case["where"], "c" if case["cplx"] else "r")
+    wit = dict(case)
+    K = 300
+    idx = {"tail": np.arange(N - K, N), "head": np.arange(K),
+           "middle": np.arange(N // 2, N // 2 + K),
+           "sparse": np.sort(rng.choice(N, K, replace=False))}[case["where"]]
+    d = 0.5 + 0.5 * rng.random(N)                      # distinct curvatures in [0.5, 1]
+    b = np.zeros(N, dt)
+    b[idx] = crandn(rng, [K], dt) + 2
+    x = np.zeros(N, dt)
+    sol = lambda: [x]                                   # noqa: E731
+    if kind.startswith("GradientMethod"):
+        proxg = sp.prox.L1Reg([N], 0.05) if kind.endswith("l1") else None
+        alg = sp.alg.GradientMethod(lambda v: d * (v - b), x, 0.9, proxg=proxg,
+                                    accelerate=kind.endswith("acc"), max_iter=mi, tol=0)
+    elif kind == "ConjugateGradient":
+        alg = sp.alg.ConjugateGradient(lambda v: d * v, d * b, x, max_iter=mi, tol=0)
+    else:
+        A = sp.linop.Multiply([N], np.sqrt(d).astype(dt))
+        u = np.zeros(N, dt)
+        sol = lambda: [x, u]                            # noqa: E731
+        alg = sp.alg.PrimalDualHybridGradient(
+            sp.prox.L2Reg([N], 1, y=-(np.sqrt(d) * b)), sp.prox.NoOp([N]), A, A.H, x, u,
+            0.9, 0.9, max_iter=mi, tol=0)
+    n = 0
+    with alg_mon.budget(extra=3):
+        while not alg.done():
+            alg.update()
+            n += 1
+    if n > mi:
+        return violated(sig, "%d updates with max_iter=%d" % (n, mi), wit,
+                        mech="max_iter:" + kind)
+    obs = {"updates": n, "unknowns": N, "moving": K}
+    if n < mi and not getattr(alg, "not_positive_definite", False):
+        s0 = snap(sol)
+        for extra in range(2):
+            alg.update()
+            ch, dmove = changed(s0, snap(sol))
+            if ch:
+                return violated(sig, "%s stopped after %d of max_iter=%d updates with tol=0 on "
+                                "%d unknowns of which only %d (%s) still move, but a further "
+                                "update moves the solution by %.3g" % (
+                                    kind, n, mi, N, K, case["where"], dmove), wit,
+                                mech="early-stop:" + kind, obs=obs)
+    return held(sig, obs, n + 1, True)
+
+
 def run_interleave(case):
     rng = np.random.default_rng(case["aseed"])
     kind, mi = case["alg"], case["mi"]
@@ -437,6 +500,16 @@ def run_app(case):
         app = mr.app.EspiritCalib(ksp, calib_width=8, kernel_width=3, show_pbar=False,
                                   max_iter=mi)
     top = app.alg
+    if name == "EspiritCalib" and mi == 0:
+        with alg_mon.hooks(update=hook), alg_mon.budget(extra=3):
+            while not top.done():
+                top.update()
+        nup = counts.get(id(top), 0)
+        if nup > 0 or top.iter != 0:
+            return violated(sig, "the algorithm of EspiritCalib(max_iter=0) performed %d "
+                            "update(s) (iter = %d)" % (nup, top.iter), wit,
+                            mech="max_iter:" + name)
+        return held(sig + "|loop-only", {"updates": 0}, 1, False)
     with alg_mon.hooks(update=hook), alg_mon.budget(extra=3):
         out = app.run()
     nup = counts.get(id(top), 0)
@@ -659,7 +732,7 @@ def run_case(case):
         return run_transient(case)
     fn = run_fista_stall if case["gen"] == "fista-stall" else {
         "loop": run_loop, "interleave": run_interleave, "app": run_app,
-        "power": run_power}[case["gen"]]
+        "power": run_power, "bigloop": run_bigloop}[case["gen"]]
     try:
         return fn(case)
     except alg_mon.MonitorAbort:
